@@ -805,4 +805,11 @@ class AbstractAgg:
         return LTen(V.Shape([M.shape.lead[1]]), lambda idx: out(lift(idx[0])), fresh=True)
 
     def sym_getattr(self, interp, name):
+        if name == "forward":
+            # A.forward(M) computes the same vector as A(M) but bypasses nn.Module.__call__ (registered hooks): recorded, so
+            # that a contract can demand that the aggregator is CALLED
+            def fwd(interp2, *a, **k):
+                interp2.cx.event("agg_forward_called_directly", pc_len=len(interp2.cx.pc))
+                return self.sym_call(interp2, list(a), k)
+            return V.SymMethod(fwd)
         return MISSING
